@@ -185,6 +185,8 @@ pub fn check_total<T: std::fmt::Debug>(ctx: &mut Ctx, x: &Exec<T>, tag: &str) ->
 
 /// Normalise a panic message to its kind (drop the concrete numbers).
 pub fn panic_kind(msg: &str) -> String {
+    // the kind is the text before any quoted data
+    let msg = msg.split([';', '`', '"', '\'']).next().unwrap_or(msg).trim_end();
     let mut out = String::new();
     let mut last_digit = false;
     for ch in msg.chars() {
